@@ -1,11 +1,15 @@
 ------------------------------- MODULE PoolGen -------------------------------
 (* R2 for C06: retained message (value type x nesting depth x size class) followed by every history of up to MaxLater later reads. *)
 EXTENDS Integers, Sequences, TLC, Json
-CONSTANTS MaxLater
+CONSTANTS MaxLater, PLens
 VARIABLES c
 Kinds == {"addr4", "addr6", "addrother", "unknown", "ipv4", "ipv6", "octets", "utf8", "u32", "time", "mixed", "octets300", "utf8300"}
 Later == {[how |-> h, size |-> z] : h \in {"same", "goroutine", "conn"}, z \in {"small", "large"}}
-Init == c \in {[kind |-> k, depth |-> d, size |-> z, history |-> <<>>] : k \in Kinds, d \in 0..2, z \in {"small", "large"}}
+\* variable-length values of a given payload length; plen = 0 stands for "the longest that keeps the
+\* whole message body inside the 1 KiB pooled read buffer" (1016 - 8 * depth)
+NKinds == {"octetsN", "utf8N", "unknownN"}
+Init == c \in {[kind |-> k, depth |-> d, size |-> z, plen |-> 0, history |-> <<>>] : k \in Kinds, d \in 0..2, z \in {"small", "large"}}
+          \cup {[kind |-> k, depth |-> d, size |-> "small", plen |-> n, history |-> <<>>] : k \in NKinds, d \in 0..2, n \in PLens}
 Next == /\ Len(c.history) < MaxLater
         /\ \E x \in Later : c' = [c EXCEPT !.history = Append(@, x)]
 Emit == c.history = <<>> \/ PrintT(ToJson(c))
